@@ -63,6 +63,11 @@ def build_cases(seed: int, deep: bool) -> List[Tuple[str, List[Dict[str, Any]], 
     cases = []
     base = dict(timecode=False, log_level=100, timing=True, order="fwd")
     for name, s in MG.directed():
+        if name.startswith("u16_boundary_"):
+            # 65 thousand rounds each: one configuration; quick runs the exact boundary only
+            if deep or name.endswith("_65535"):
+                cases.append((f"d.{name}.0", s.rounds, base, "both"))
+            continue
         heavy_case = name.startswith(("connections_", "dynamic_", "traffic_"))
         cfgs = [base]
         if deep or not heavy_case:
